@@ -81,7 +81,7 @@ func battery(clock string, embed bool) *Scenario {
 		{Name: "p3", HasC: true, Embed: embed},
 	}
 	b := Step{K: "build"}
-	sc.Steps = []Step{b,
+	sc.Steps = []Step{{K: "crash", Pkg: 2, Target: "lib-manifest"}, b, // the very first build dies between the archive and the manifest of the link-argument package
 		{K: "edit-src-same", Pkg: 3}, b, // shared leaf: both importers and their importers must follow
 		{K: "edit-c", Pkg: 2, Arg: 1}, b, // second C file
 		{K: "edit-c", Pkg: 2, Arg: 0}, b,
@@ -152,6 +152,14 @@ func (prop) Generate(rng *sim.Rng, tier string, runIndex int) driver.Scenario {
 	ns := rng.Range(6, 10)
 	if tier == "thorough" {
 		ns = rng.Range(4, 14)
+	}
+	if rng.Intn(4) == 0 {
+		for i, p := range sc.Pkgs {
+			if p.LinkLib {
+				sc.Steps = append(sc.Steps, Step{K: "crash", Pkg: i, Target: "lib-manifest"})
+				break
+			}
+		}
 	}
 	sc.Steps = append(sc.Steps, Step{K: "build"})
 	for len(sc.Steps) < ns {
@@ -315,6 +323,12 @@ func (w *world) writePkg(i int) {
 	for _, im := range p.Imports {
 		fmt.Fprintf(&sb, "\t\"c13mod/%s\"\n", im)
 	}
+	if p.LinkLib {
+		// a package that is nothing but link-name declarations and a link argument:
+		// it needs no Go runtime, its only contribution to the program is "-lbz2"
+		fmt.Fprintf(&sb, "\t\"c13mod/%slib\"\n", p.Name)
+		w.write(filepath.Join(w.dir, p.Name+"lib", "lib.go"), fmt.Sprintf("package %slib\n\nimport _ \"unsafe\"\n\nconst LLGoPackage = \"link: -lbz2\"\n\n//go:linkname Version C.BZ2_bzlibVersion\nfunc Version() *int8\n", p.Name))
+	}
 	sb.WriteString(")\n\n")
 	fmt.Fprintf(&sb, "const srcVer = \"v%04d\"\n\n// SrcVer is compiled into importers.\nconst SrcVer = srcVer\n%s\n", s.srcVer, strings.Repeat("// padding\n", s.pad))
 	if p.HasC {
@@ -322,14 +336,7 @@ func (w *world) writePkg(i int) {
 		if p.TwoC {
 			files = "_wrap/w.c; _wrap/w2.c"
 		}
-		link := "link"
-		if p.LinkLib {
-			link = "link: -lbz2"
-		}
-		fmt.Fprintf(&sb, "const (\n\tLLGoFiles   = \"%s\"\n\tLLGoPackage = \"%s\"\n)\n\n//go:linkname cval C.%s_cval\nfunc cval() int32\n\n", files, link, p.Name)
-		if p.LinkLib {
-			fmt.Fprintf(&sb, "//go:linkname bz C.%s_bz\nfunc bz() int32\n\n", p.Name)
-		}
+		fmt.Fprintf(&sb, "const (\n\tLLGoFiles   = \"%s\"\n\tLLGoPackage = \"link\"\n)\n\n//go:linkname cval C.%s_cval\nfunc cval() int32\n\n", files, p.Name)
 		if p.TwoC {
 			fmt.Fprintf(&sb, "//go:linkname cval2 C.%s_cval2\nfunc cval2() int32\n\n", p.Name)
 		}
@@ -349,7 +356,7 @@ func (w *world) writePkg(i int) {
 		sb.WriteString("\ts += \" c2=\" + itoa(cval2())\n")
 	}
 	if p.LinkLib {
-		sb.WriteString("\ts += \" bz=\" + itoa(bz())\n")
+		fmt.Fprintf(&sb, "\ts += \" bz=\" + itoa(int32(*%slib.Version()))\n", p.Name)
 	}
 	if p.HasTag {
 		sb.WriteString("\ts += \" tag=\" + variant\n")
@@ -370,9 +377,6 @@ func (w *world) writePkg(i int) {
 func (w *world) cSource(i int) string {
 	p := w.sc.Pkgs[i]
 	src := fmt.Sprintf("int %s_cval(void) { return %d; }\n", p.Name, w.st[i].cVal)
-	if p.LinkLib {
-		src += fmt.Sprintf("extern const char *BZ2_bzlibVersion(void);\nint %s_bz(void) { return BZ2_bzlibVersion()[0]; }\n", p.Name)
-	}
 	return src
 }
 
@@ -633,8 +637,12 @@ func (prop) Run(scx driver.Scenario, ch *sim.Choices, keep bool) *driver.Result 
 			}
 			match := ""
 			if pendingFault.K == "crash" && pendingFault.Target != "" {
-				suffix := map[string]string{"manifest": ".manifest", "archive": ".a"}[pendingFault.Target]
-				match = "rename|/c13mod/" + sc.Pkgs[pendingFault.Pkg].Name + "/|" + suffix
+				suffix := map[string]string{"manifest": ".manifest", "archive": ".a", "lib-manifest": ".manifest"}[pendingFault.Target]
+				name := sc.Pkgs[pendingFault.Pkg].Name
+				if pendingFault.Target == "lib-manifest" {
+					name += "lib"
+				}
+				match = "rename|/c13mod/" + name + "/|" + suffix
 				crashAt = 0
 			}
 			if pendingFault.K == "fserr" && pendingFault.Target != "" {
